@@ -8,7 +8,7 @@
   `advStep_branch`, `advanceHeadFront_branches`, `or_group_phase1_real` (every matching branch head ends MERGING and is handed back).  A head that ends on an action (`send`):
   `forIn_readonly_false`, `advanceHeadFront_one_action`, `group_exit_real` (the forking head leaves the group and is handed back as actionable).  The merging loop's call on the MERGING member
   head of an and-group, with the nested call on the forking head: `and_group_merge_real`; the same for ONE MERGING branch head of an
-  or-group of single atoms: `or_group_merge_real`.
+  or-group of single atoms: `or_group_merge_real`.  Both calls composed for one event on a pure and-group: `and_group_event_real`.
 -/
 import NemoVerif.Lemmas.GroupCoreVMMirror
 set_option linter.unusedSimpArgs false
@@ -330,7 +330,8 @@ theorem advanceHeadFront_members (fuel : Nat) (f : FUid) (x : InstX) (cfg : Flow
       ∃ s' i', advanceHeadFront (fuel + 4) (hs.map fun h => (f, h)) s
           = .ok ((hs.filter fun h => decide ((h, pe + 2, HeadStatus.merging) ∈ hview i')).map fun h => (f, h)) s' ∧
         runMembers (fuel + 3) f hs s = .ok () s' ∧ FlowAt s' f i' x cfg ∧ s'.r = s.r ∧ i'.status = .started ∧
-        (∀ o ∈ i'.heads, o.pos < cfg.elements.size) ∧ ((hview i').map (·.1)).Nodup := by
+        (∀ o ∈ i'.heads, o.pos < cfg.elements.size) ∧ ((hview i').map (·.1)).Nodup ∧
+        (∀ t ∈ hview i, t.1 ∉ hs → t ∈ hview i') := by
   have key : ∀ (hs : List HUid) (s : VM) (i : Inst), FlowAt s f i x cfg → i.status = .started →
       (∀ o ∈ i.heads, o.pos < cfg.elements.size) → ((hview i).map (·.1)).Nodup → hs.Nodup →
       (∀ h ∈ hs, ∃ p, (h, p, HeadStatus.active) ∈ hview i ∧ cfg.elements[p + 1]! = .goto (.lit (.bool true)) l ∧ p + 1 < pe + 1) →
@@ -387,8 +388,8 @@ theorem advanceHeadFront_members (fuel : Nat) (f : FUid) (x : InstX) (cfg : Flow
         have hne : t.1 ≠ h := fun e => hnot (by simp [e])
         exact hkeep' t (hkeep t ht hne) (fun hm => hnot (by simp [hm]))
   intro hs s i F hst hr hnd hnds hall
-  obtain ⟨s', i', hch, hrun, F', hr', hst', hrange', hnd', _⟩ := key hs s i F hst hr hnd hnds hall
-  refine ⟨s', i', ?_, hrun, F', hr', hst', hrange', hnd'⟩
+  obtain ⟨s', i', hch, hrun, F', hr', hst', hrange', hnd', hkeep⟩ := key hs s i F hst hr hnd hnds hall
+  refine ⟨s', i', ?_, hrun, F', hr', hst', hrange', hnd', hkeep⟩
   apply advanceHeadFront_chain (fuel + 3) f x cfg hs _ s s' hch
   intro h hh
   have hm := (List.mem_filter.1 hh).2
@@ -460,11 +461,12 @@ theorem and_clause_phase1_real (fuel : Nat) (s : VM) (f : FUid) (i : Inst) (x : 
     ∃ s' i', advanceHeadFront (fuel + 4) ((matchingU e us ms).map fun h => (f, h)) s
         = .ok (((matchingU e us ms).filter fun h => decide ((h, pe + 2, HeadStatus.merging) ∈ hview i')).map fun h => (f, h)) s' ∧
       FlowAt s' f i' x cfg ∧ s'.r = s.r ∧
-      hview i' = others ++ renderU (pe + 1) us (p1Members e n [] ms) := by
+      hview i' = others ++ renderU (pe + 1) us (p1Members e n [] ms) ∧ i'.status = .started ∧
+      (∀ t ∈ hview i, t.1 ∉ matchingU e us ms → t ∈ hview i') := by
   have hndv : ((hview i).map (·.1)).Nodup := by
     rw [hv, List.map_append, renderU_fst _ _ _ hlen]; exact hnd
   have hndu : (us.map (·.1)).Nodup := (List.nodup_append.1 hnd).2.1
-  obtain ⟨s1, i1, hreal, hrun1, F1, _, _, _, _⟩ := advanceHeadFront_members fuel f x cfg l mu pe n hown C (matchingU e us ms) s i F hstarted
+  obtain ⟨s1, i1, hreal, hrun1, F1, _, hst1, _, _, hkeep1⟩ := advanceHeadFront_members fuel f x cfg l mu pe n hown C (matchingU e us ms) s i F hstarted
     hrange hndv ((matchingU_sublist e us ms).nodup hndu) (by
       intro h hh
       obtain ⟨u, hu, e1, hm⟩ := matchingU_mem e (pe + 1) us ms h hh
@@ -477,7 +479,7 @@ theorem and_clause_phase1_real (fuel : Nat) (s : VM) (f : FUid) (i : Inst) (x : 
   subst es
   have ei : i1 = i2 := Option.some.inj (F1.hi.symm.trans F2.hi)
   subst ei
-  exact ⟨s1, i1, hreal, F2, hr2, hv2⟩
+  exact ⟨s1, i1, hreal, F2, hr2, hv2, hst1, hkeep1⟩
 
 open NemoVerif.GroupVM (Br p1Brs)
 
@@ -1037,5 +1039,109 @@ theorem or_group_merge_real (fuel : Nat) (s : VM) (f : FUid) (i : Inst) (x : Ins
   cases cfg.elements[0]? <;>
     simp only [pure, EStateM.pure, Bool.false_eq_true, if_false, List.filter_cons, List.filter_nil, F2.hi, hfr2, hrs2,
       show decide (HeadStatus.active ≠ HeadStatus.inactive) = true from by decide, if_true, bind, EStateM.bind]
+
+/-! ### one event on a pure and-group through both calls of the real function -/
+
+open NemoVerif.GroupVM (QMs remMs mergingFrom QItem p1Members_spec mem_mergingFrom)
+
+theorem filter_eq_singleton' (h : HUid) (P : HUid → Bool) (l : List HUid) (hnd : l.Nodup) (hm : h ∈ l)
+    (hP : ∀ c ∈ l, P c = decide (c = h)) : l.filter P = [h] := by
+  rw [List.filter_congr hP]; exact filter_eq_singleton h l hnd hm
+
+/-- **One event on a pure and-group through the TWO calls of CoreVM's real `_advance_head_front`** that `runToCompletion` makes for it
+    (any size).  Between two events the member heads are on their `match` elements or parked (`QMs ms`), the forking head is INACTIVE,
+    the flow STARTED.  Call 1 (from the event's handling, with the member heads that wait on `match e`): the state of
+    `GroupVM.p1Members`; it returns `[]`, or — when the event completes the clause — exactly the one MERGING head.  Call 2 (from the
+    merging loop, with what call 1 returned, queue empty): the group is merged, the forking head is the only head left, ACTIVE on the
+    statement after the group, and is what the main loop gets. -/
+theorem and_group_event_real (fuel : Nat) (s : VM) (f : FUid) (i : Inst) (x : InstX) (cfg : FlowCfg) (l mu : String) (pe fp e : Nat)
+    (r : HUid) (us : List (HUid × Nat)) (ms : List (Nat × MLoc)) (spec : Spec) (nm : String)
+    (F : FlowAt s f i x cfg) (hown : x.ctxOwner = none) (C : ClauseShape cfg l mu pe ms.length) (S : MembersShape cfg l pe us)
+    (hlen : us.length = ms.length) (hndu : (r :: us.map (·.1)).Nodup) (hq : QMs ms)
+    (hv : hview i = (r, fp, HeadStatus.inactive) :: renderU (pe + 1) us ms)
+    (hfu : OMap.lookup mu x.forkUids = some r)
+    (hhx : ((OMap.lookup (f, r) s.r.hx).getD {}).childHeadUids = us.map (·.1))
+    (hleaf : ∀ c ∈ us.map (·.1), ((OMap.lookup (f, c) s.r.hx).getD {}).childHeadUids = [])
+    (hmu : mu ∉ us.map (·.1)) (hfp : fp ≠ pe + 2)
+    (hstarted : i.status = .started) (hrange : ∀ o ∈ i.heads, o.pos < cfg.elements.size)
+    (hqueue : s.r.queue = []) (hclr : s.r.cleared = [])
+    (hsz4 : pe + 4 < cfg.elements.size) (hc1 : cfg.elements[pe + 3]! = .catchFail none) (hc2 : cfg.elements[pe + 4]! = .sendOp spec)
+    (hp : PlainSpec spec nm) (hargs : spec.args = []) (hint : internalEvents.contains nm = false)
+    (hcl : ∀ c ∈ us.map (·.1), ((OMap.lookup (f, c) s.r.hx).getD {}).catchLabels.isEmpty = false) :
+    ∃ s1 i1 acts, advanceHeadFront (fuel + 4) ((matchingU e us ms).map fun h => (f, h)) s = .ok acts s1 ∧ FlowAt s1 f i1 x cfg ∧
+      s1.r = s.r ∧ hview i1 = (r, fp, HeadStatus.inactive) :: renderU (pe + 1) us (p1Members e ms.length [] ms) ∧
+      (remMs (p1Members e ms.length [] ms) = [] → remMs ms ≠ [] →
+        ∃ (j : Nat) (uj : HUid × Nat) (a : Nat), us[j]? = some uj ∧ (p1Members e ms.length [] ms)[j]? = some (a, MLoc.merging) ∧
+          acts = [(f, uj.1)] ∧
+          ∃ s2 i2 x2, advanceHeadFront (fuel + 5) acts s1 = .ok [(f, r)] s2 ∧ FlowAt s2 f i2 x2 cfg ∧
+            hview i2 = [(r, pe + 4, HeadStatus.active)]) := by
+  obtain ⟨s1, i1, hreal, F1, hr1, hv1, hst1, hkeep⟩ := and_clause_phase1_real fuel s f i x cfg l mu pe ms.length e
+    [(r, fp, HeadStatus.inactive)] us ms F hown C S hlen (by simpa using hndu) (by simp [liveAt]) (by simpa using hv) hstarted hrange
+  have hv1' : hview i1 = (r, fp, HeadStatus.inactive) :: renderU (pe + 1) us (p1Members e ms.length [] ms) := by simpa using hv1
+  refine ⟨s1, i1, _, hreal, F1, hr1, hv1', ?_⟩
+  intro hdone hsome
+  have hspec := p1Members_spec e ms.length 0 ms [] hq (by intro m hm; cases hm) (by simp)
+  obtain ⟨j, a, hjm, hmf⟩ := hspec.2.2.2 hdone hsome
+  have hl' : (p1Members e ms.length [] ms).length = ms.length := hspec.2.1
+  have hjlt : j < us.length := by
+    rcases Nat.lt_or_ge j (p1Members e ms.length [] ms).length with h | h
+    · omega
+    · rw [List.getElem?_eq_none h] at hjm; cases hjm
+  have hju : us[j]? = some us[j] := List.getElem?_eq_getElem hjlt
+  have hnl := p1Members_not_lost e ms.length ms []
+    (by intro m hm; rcases hq m hm with h | h <;> (rw [h]; decide)) (by intro m hm; cases hm)
+  -- only entry `j` is MERGING
+  have honly : ∀ j' m', (p1Members e ms.length [] ms)[j']? = some m' → j' ≠ j → m'.2 ≠ MLoc.merging := by
+    intro j' m' hm' hne hmg
+    have : QItem.member 0 (0 + j') ∈ mergingFrom 0 0 (p1Members e ms.length [] ms) :=
+      (mem_mergingFrom 0 _ 0 _).2 ⟨j', m'.1, rfl, by rw [hm']; cases m'; simp_all⟩
+    rw [hmf] at this
+    simp at this
+    exact hne this
+  have hndv1 : ((hview i1).map (·.1)).Nodup := by
+    rw [hv1', List.map_cons, renderU_fst _ _ _ (by rw [hl']; exact hlen)]; exact hndu
+  have hmemj : (us[j].1, pe + 2, HeadStatus.merging) ∈ hview i1 := by
+    rw [hv1']; exact List.mem_cons_of_mem _ (mem_renderU (pe + 1) us _ j us[j] (a, MLoc.merging) hju hjm)
+  have hndm : (matchingU e us ms).Nodup := (matchingU_sublist e us ms).nodup (List.nodup_cons.1 hndu).2
+  -- the head that completed the clause was among the advanced ones
+  have hin : us[j].1 ∈ matchingU e us ms := by
+    apply Classical.byContradiction
+    intro hnot
+    have hjms : j < ms.length := by omega
+    have hold : (us[j].1, mlocCore us[j].2 (pe + 1) ms[j].2) ∈ hview i := by
+      rw [hv]; exact List.mem_cons_of_mem _ (mem_renderU (pe + 1) us ms j us[j] ms[j] hju (List.getElem?_eq_getElem hjms))
+    have hk := hkeep _ hold hnot
+    have := hview_fst_unique i1 hndv1 _ _ hk hmemj rfl
+    rcases hq ms[j] (List.getElem_mem hjms) with h | h <;> (rw [h] at this; simp [mlocCore] at this)
+  have hacts : (matchingU e us ms).filter (fun h => decide ((h, pe + 2, HeadStatus.merging) ∈ hview i1)) = [us[j].1] := by
+    apply filter_eq_singleton' us[j].1 _ _ hndm hin
+    intro c _
+    by_cases hc : c = us[j].1
+    · subst hc; simp [hmemj]
+    · have : (c, pe + 2, HeadStatus.merging) ∉ hview i1 := by
+        intro hm
+        rw [hv1'] at hm
+        rcases List.mem_cons.1 hm with h | h
+        · simp at h
+        · obtain ⟨j', u', m', h1, h2, h3⟩ := of_mem_renderU (pe + 1) us _ _ h
+          have hmg : m'.2 = MLoc.merging := by
+            cases hm2 : m'.2 <;> first | rfl | (rw [hm2] at h3; simp [mlocCore] at h3)
+          have hjj : j' = j := Classical.byContradiction fun hne => honly j' m' h2 hne hmg
+          subst hjj
+          rw [hju] at h1; cases h1
+          simp at h3; exact hc h3.1
+      simp [this, hc]
+  refine ⟨j, us[j], a, hju, hjm, by rw [hacts]; rfl, ?_⟩
+  rw [hacts]
+  have hujmem : us[j].1 ∈ us.map (·.1) := List.mem_map.2 ⟨us[j], List.getElem_mem hjlt, rfl⟩
+  exact and_group_merge_real fuel s1 f i1 x cfg l mu pe ms.length fp r us (p1Members e ms.length [] ms) j us[j] a spec nm F1 C hv1'
+    (by rw [hl']; exact hlen) hndu hju hjm
+    (by
+      intro j' m' hm' hne
+      have h1 : m'.2 ≠ MLoc.lost := hnl m' (List.mem_of_getElem? hm')
+      have h2 := honly j' m' hm' hne
+      cases hm2 : m'.2 <;> simp_all)
+    hfu (by rw [hr1]; exact hhx) (by rw [hr1]; exact hleaf) hmu hfp hst1 (by rw [hr1]; exact hqueue) (by rw [hr1, hclr]; rfl)
+    hsz4 hc1 hc2 hp hargs hint (by rw [hr1]; exact hcl _ hujmem)
 
 end NemoVerif.CoreVM
